@@ -34,6 +34,9 @@ pub struct Scn {
     /// worker, in order)
     #[serde(default)]
     pub one_thread: bool,
+    /// how the --files-from list is terminated: "lf", "crlf", "lf-final", "crlf-final"
+    #[serde(default)]
+    pub list_style: String,
 }
 
 fn enc_of(scn_encoding: &str) -> &'static encoding_rs::Encoding {
@@ -111,7 +114,13 @@ fn args_for(scn: &Scn, sc: &Scratch) -> Vec<String> {
         "glob" => vec!["src/*.pas".to_string()],
         "files-from" => {
             let list: Vec<String> = scn.files.iter().filter(|f| !f.path.ends_with(".txt") && !f.path.ends_with(".x")).map(|f| f.path.clone()).collect();
-            sc.write("list.txt", list.join("\n").as_bytes());
+            // the list is "newline separated": LF or CRLF, with or without a final terminator
+            let nl = if scn.list_style.starts_with("crlf") { "\r\n" } else { "\n" };
+            let mut text = list.join(nl);
+            if scn.list_style.ends_with("-final") {
+                text.push_str(nl);
+            }
+            sc.write("list.txt", text.as_bytes());
             vec!["--files-from".to_string(), "list.txt".to_string()]
         }
         _ => scn.files.iter().filter(|f| !f.path.ends_with(".txt") && !f.path.ends_with(".x")).map(|f| f.path.clone()).collect(),
@@ -290,7 +299,8 @@ impl Prop for C16Prop {
         }
         let mut c = Case::text("scn", String::new(), cfg);
         let one_thread = t.chance(1, 3);
-        c.extra = serde_json::to_value(Scn { files, form, encoding, one_thread }).unwrap();
+        let list_style = (*t.pick(&["lf", "crlf", "lf-final", "crlf-final"])).to_string();
+        c.extra = serde_json::to_value(Scn { files, form, encoding, one_thread, list_style }).unwrap();
         Some(c)
     }
     fn hang_limit(&self, _case: &Case) -> Option<u64> {
